@@ -36,9 +36,11 @@ MANIFEST = dict(
           "both map shapes, nested plugin / list->composite, product config mutated between calls, plus the real `rps` list/composite entries) "
           "and TLC validates each observed run against the invariants and the model's exact observable. This is the right level: the statement "
           "is a cross product over registration shapes and call histories, which the unit tests only sample on the first product."),
-    note=("Exhaustive over the stated finite space (calls <= 3, thorough 4; one nested level, one config layout); registration-time panics of malformed "
-          "constructors (expect()) and concurrency of Registry.New are not covered. Trusted: the recording driver "
-          "(harness/cmd/vdrive/plugreg.go), TLC."),
+    note=("Exhaustive over the stated finite space (calls <= 3, thorough 4; one nested level incl. a plugin list of length 0, one config layout). "
+          "The registry as an object (PluginRegistryApi.tla): sequences of Register operations - duplicates, the same name under another type, "
+          "37 constructor type descriptors incl. variadic / pointer-vs-value receiver / malformed ones, 9 default-config arguments - with Lookup, "
+          "LookupFactory, New, NewFactory probed after every operation on a fresh real registry (2 430 cases quick, 4 158 thorough, five negative "
+          "controls). Concurrent Register is not covered. Trusted: the recording drivers (harness/cmd/vdrive/plugreg*.go), TLC."),
 )
 
 INVS = ["IsCase", "Conforms", "PConfigRight", "PNoSpuriousFailure", "PFailureReaches", "PPanicRule",
